@@ -82,7 +82,12 @@ class Gen:
         if r < 0.30:
             base = ["var", rng.choice(VARS_ANY)]
         elif r < 0.40 and allow_dyn:
-            return self.dyn()
+            d = self.dyn()
+            if allow_filter and rng.random() < 0.2:
+                # filters after a nested-template string apply to the RESULT of the nested template
+                self.features.add("dynamic-string-with-filters")
+                return self.filtered(d)
+            return d
         else:
             base = self.literal()
         if allow_filter and rng.random() < 0.3:
@@ -126,12 +131,17 @@ class Gen:
             if rng.random() < 0.4:
                 e += rng.choice(["|upper", "|length", "|default:OTHERQxOTHERQ", "|add:1", "|safe", "|first"])
             pad = rng.choice([" ", "", "  "])
+            if rng.random() < 0.12:
+                # a line break INSIDE the nested tag (multi-line tags are a documented feature of the library)
+                self.features.add("dynamic-newline-inside-nested-tag")
+                return ["var", rng.choice(["\n", "\n  ", " "]) + e + rng.choice(["\n", " \n "])]
             return ["var", pad + e + pad]
 
         def block_part():
             return ["block", rng.choice([
                 "{% firstof v_none v_int %}", "{% if v_t %}yes{% else %}no{% endif %}", "{% for i in v_list %}<{{ i }}>{% endfor %}",
                 "{% with q=v_int %}{{ q|add:1 }}{% endwith %}", "{% firstof v_html %}", "{% if v_f %}x{% endif %}",
+                "{% firstof\n  v_none v_int\n%}", "{% if v_t\n%}yes{% else\n%}no{% endif\n%}",
             ])]
 
         if r < 0.35:
@@ -434,6 +444,12 @@ class Evaluator:
     def leaf(self, node, ctx):
         if node[0] == "dyn":
             return self.dyn(node, ctx)
+        if node[0] == "filt" and node[1][0] == "dyn":
+            # the nested template first, then the filter chain on its value
+            value = self.dyn(node[1], ctx)
+            chain = render_leaf(["filt", ["var", "c02_dyn_value"], node[2]], self.canon)
+            with ctx.push({"c02_dyn_value": value}):
+                return self.FilterExpression(chain, self.parser).resolve(ctx)
         text = render_leaf(node, self.canon)
         return self.FilterExpression(text, self.parser).resolve(ctx)
 
